@@ -8,6 +8,7 @@ import (
 	"io"
 	"math/rand"
 	"net"
+	"runtime"
 	"runtime/debug"
 	"strings"
 	"sync"
@@ -76,6 +77,9 @@ type scenario struct {
 	// and receives DualPct percent additional data frames interleaved with the first one's.
 	Dual    bool `json:"dual,omitempty"`
 	DualPct int  `json:"dual_pct,omitempty"`
+	// Writes2: sizes of Write calls on the second connection, issued by a goroutine of its own
+	// concurrently with the first connection's writer (two sessions sharing one TNC link).
+	Writes2 []int `json:"writes2,omitempty"`
 }
 
 func defaults() scenario {
@@ -116,6 +120,10 @@ type env struct {
 	conn2 net.Conn // Dual: connection to otherCall
 	got2  []byte
 	rd2   chan struct{}
+	wr2   chan struct{}
+
+	attempted2, succeeded2 bytes.Buffer
+	writeErr2              error
 
 	readerBytes atomic.Int64
 	stall       atomic.Pointer[chan struct{}]
@@ -141,6 +149,7 @@ type env struct {
 
 	appClosedLink bool // closeAll has been called
 	closeReturned bool // Conn.Close of the first connection returned nil
+	stuckDump     string
 }
 
 func (e *env) vio(key, format string, a ...any) {
@@ -291,6 +300,7 @@ func (e *env) stuck(what string) {
 	if consumed && !e.sc.tolerant() {
 		e.vio("stuck:"+what, "%s does not return: the simulated TNC has answered every request, the library has consumed every byte of the link, "+
 			"and nothing has moved for %v (a frame was lost inside the library)", what, stuckAfter)
+		e.stuckDump = goroutineDump()
 	} else {
 		e.inconclusive(fmt.Sprintf("%s/%s seed %d: %s did not return (link %s, tolerant=%v)", e.sc.Class, e.sc.Link, e.sc.Seed, what, e.sc.Link, e.sc.tolerant()))
 	}
@@ -412,7 +422,10 @@ func (e *env) open() (ok bool) {
 		}
 		host, tncEnd := simagw.Pipe(sc.Seed, seg)
 		e.host = host
-		e.sim.Attach(tncEnd, nil)
+		if len(sc.Writes2) > 0 {
+			host.WritePause = 150 * time.Microsecond
+		}
+		e.sim.Attach(tncEnd, tncEnd.CloseWrite)
 		if !e.call("RegisterPort", func() {
 			e.tnc = agwpe.VerifNewTNC(host)
 			e.port, regErr = e.tnc.RegisterPort(sc.Port, myCall)
@@ -677,10 +690,13 @@ func (e *env) reader(done chan struct{}) {
 				e.mu.Unlock()
 				e.readerBytes.Add(int64(n))
 			}
-			if e.readerBytes.Load() > 16<<20 {
-				// far more than any scenario sends: the judge reports the surplus
-				e.count("reader_stopped_at_16MiB", 1)
-				return
+			if reads%256 == 255 {
+				// a stream that delivers far more than the TNC ever sent never ends: stop, the judge reports the surplus
+				if fl := e.sim.ConnFlags(remoteCall); e.gotN() > fl.TxBytes+(64<<10) {
+					e.count("reader_stopped_far_beyond_ledger", 1)
+					e.fatalOnce.Do(func() { close(e.fatal) }) // end the scenario; the judge reports the surplus
+					return
+				}
 			}
 			if n > len(buf) || n < 0 {
 				e.vio("api:read:count", "Read returned n=%d for a %d byte buffer", n, len(buf))
@@ -728,6 +744,12 @@ func (e *env) writer(done chan struct{}) {
 			}
 		}
 	})
+}
+
+func (e *env) gotN() int {
+	e.mu.Lock()
+	defer e.mu.Unlock()
+	return len(e.got)
 }
 
 func (e *env) rng2(i int) *rand.Rand { return vrt.Rand(e.sc.Seed, "write", i) }
@@ -868,6 +890,28 @@ func (e *env) run() {
 					if err != nil || tooMuch {
 						return
 					}
+				}
+			})
+		}()
+		e.wr2 = make(chan struct{})
+		go func() {
+			defer close(e.wr2)
+			e.guard(func() {
+				for i, sz := range sc.Writes2 {
+					p := vrt.Bytes(vrt.Rand(sc.Seed, "write2", i), sz)
+					e.mu.Lock()
+					e.attempted2.Write(p)
+					e.mu.Unlock()
+					n, err := c2.Write(p)
+					e.mu.Lock()
+					if err != nil || n != len(p) {
+						e.writeErr2 = fmt.Errorf("Write #%d of %d bytes on the second connection returned (%d, %w)", i, len(p), n, err)
+						e.mu.Unlock()
+						return
+					}
+					e.succeeded2.Write(p)
+					e.mu.Unlock()
+					e.count("app_writes_second_conn", 1)
 				}
 			})
 		}()
@@ -1058,6 +1102,10 @@ func (e *env) endSecond() {
 		return
 	}
 	e.setPhase("end-second")
+	if !e.await(e.wr2) {
+		e.stuck("Write(second connection)")
+		return
+	}
 	e.mu.Lock()
 	dropped := e.dropLink
 	e.mu.Unlock()
@@ -1112,6 +1160,34 @@ func (e *env) teardown() {
 		e.ln.Close()
 	}
 	e.judge(rep, aborted)
+	e.omu.Lock()
+	defer e.omu.Unlock()
+	for i := range e.o.Violations {
+		if e.o.Violations[i].Detail == nil {
+			d := map[string]any{"exchange_log_excerpt": logExcerpt(rep.Events, 15, 40)}
+			if strings.HasPrefix(e.o.Violations[i].Key, "stuck:") && e.stuckDump != "" {
+				d["goroutines_in_library"] = e.stuckDump
+			}
+			e.o.Violations[i].Detail = d
+		}
+	}
+}
+
+// goroutineDump returns the stacks of the goroutines that are inside the code under test.
+func goroutineDump() string {
+	buf := make([]byte, 1<<20)
+	buf = buf[:runtime.Stack(buf, true)]
+	var keep []string
+	for _, g := range strings.Split(string(buf), "\n\n") {
+		if strings.Contains(g, "wl2k-go/transport/ax25/agwpe") {
+			keep = append(keep, g)
+		}
+	}
+	out := strings.Join(keep, "\n\n")
+	if len(out) > 24000 {
+		out = out[:24000] + "\n...[truncated]"
+	}
+	return out
 }
 
 // logExcerpt renders the first head and the last tail entries of the exchange log.
@@ -1288,6 +1364,26 @@ func (e *env) judge(rep simagw.Report, aborted bool) {
 		}
 	}
 
+	if c2 := rep.Conns[otherCall]; e.conn2 != nil && c2 != nil && len(sc.Writes2) > 0 {
+		e.mu.Lock()
+		att2, suc2, werr2 := e.attempted2.Bytes(), e.succeeded2.Bytes(), e.writeErr2
+		e.mu.Unlock()
+		recv2 := c2.Rx.Bytes()
+		e.count("bytes_app_to_tnc_second_conn", int64(len(recv2)))
+		linkGone := dropped || sc.End == "tnc-close-stalled"
+		if werr2 != nil && !sc.tolerant() && !aborted && !linkGone {
+			e.apiErr("api:write:error", werr2, "%v although the TNC answered every query (%s)", werr2, ctx)
+		}
+		switch {
+		case !bytes.HasPrefix(att2, recv2):
+			e.vio("tx-stream:corrupt", "second connection: payloads received by the TNC differ from the written bytes at offset %d (written %d, received %d; %s)", firstDiff(att2, recv2), len(att2), len(recv2), ctx)
+		case len(recv2) < len(suc2):
+			e.vio("tx-stream:lost", "second connection: Write reported %d bytes written, the TNC received only %d (%s)", len(suc2), len(recv2), ctx)
+		default:
+			e.count("tx_stream_equal_second_conn", 1)
+		}
+	}
+
 	// ---- application -> TNC stream
 	recv := c.Rx.Bytes()
 	e.count("bytes_app_to_tnc_written", int64(len(succeeded)))
@@ -1352,11 +1448,6 @@ func (e *env) judge(rep simagw.Report, aborted bool) {
 	defer e.omu.Unlock()
 	if len(sent)+len(recv) > 0 {
 		o.Sig("%s|%s|%s|p%d|%s%d|rb%d|%s|b%v|w%v|n%d|mf%d|ttl%d|%d", sc.Class, sc.Link, sc.Seg, sc.Port, sc.Mode, sc.Digis, sc.RBuf, sc.End, sc.Bursts, sc.Writes, sc.NoisePct, sc.MaxFrame, sc.TTLMax, sc.Seed)
-	}
-	for i := range o.Violations {
-		if o.Violations[i].Detail == nil {
-			o.Violations[i].Detail = map[string]any{"exchange_log_excerpt": logExcerpt(rep.Events, 15, 40)}
-		}
 	}
 	if o.Sample == nil {
 		log := logExcerpt(rep.Events, 12, 5)
